@@ -360,8 +360,8 @@ PROPS['C05'] = dict(
 
 PROPS['C09'] = dict(
     sub='c09',
-    quick=[S('rel'), S('dbg', 'zone_stride=6')],
-    thorough=[S('rel'), S('dbg')],
+    quick=[S('rel'), S('dbg', 'zone_stride=6'), S('miri', 'n=60', shards=16, timeout=1500)],
+    thorough=[S('rel'), S('dbg'), S('miri', 'n=1500', shards=16, timeout=14000)],
     rule='Date: all 7,304,484 dates (Display -> FromStr, and an independent reader). Time: every second of the day x 12 nanosecond patterns, Display, {:.0/.3/.6/.9}. DateTime/Timestamp: seeded values incl. limits and every fraction length 0..9, '
          'Display, {:.N}, DateTimePrinter options precision x separator {T,t,space} x lowercase, Timestamp::display_with_offset with whole-minute and sub-minute offsets. '
          'Zoned: every named zone of the system database (quick: every 2nd) x the C03 probe instants (T-1ns, T, ... of every transition), both passes through every fold to the second (first 12 and last 40 folds per zone), sub-minute LMT periods, '
@@ -374,7 +374,7 @@ PROPS['C09'] = dict(
                                  'the reader accepts the RFC 9557 / ISO 8601 expanded year form (+-YYYYYY) that jiff prints outside 0..=9999'],
     level_text='Round-trip and independent-reader monitoring of the real printers and parsers: exhaustive over dates and seconds of the day, boundary-biased over instants around every transition of every named zone (including both passes of folds and sub-minute LMT offsets) and over printer options.',
     level_note='Trusted base: the strict reader in harness/src/c09.rs + cal.rs; tzref.rs for the civil time a zone prescribes. serde impls delegate to Display/FromStr and are not exercised separately (serde is not a dependency of the harness).',
-    technique='round-trip (print->parse) monitor + independent RFC 3339/9557 reader over exhaustive and boundary-biased values; release + debug-assertion builds',
+    technique='round-trip (print->parse) monitor + independent RFC 3339/9557 reader over exhaustive and boundary-biased values; release + debug-assertion builds; Miri on a strided subset (the printers build strings with from_utf8_unchecked)',
     design_ref='DESIGN.md section 4, C09',
 )
 
@@ -401,8 +401,8 @@ PROPS['C11'] = dict(
 
 PROPS['C15'] = dict(
     sub='c15',
-    quick=[S('rel'), S('dbg')],
-    thorough=[S('rel'), S('dbg')],
+    quick=[S('rel'), S('dbg'), S('miri', 'scale_pct=1', 'cfg_stride=12', shards=16, timeout=1500)],
+    thorough=[S('rel'), S('dbg'), S('miri', 'scale_pct=1', 'cfg_stride=2', shards=16, timeout=14000)],
     rule='friendly format: the whole configuration lattice designator(4) x spacing(3) x direction(4) x fractional(6) x comma(2) x HH:MM:SS(2) = 1152 configurations, each with seeded padding {default,0,2,7}, precision {None,0,1,3,6,9} and zero_unit; '
          'values: zero, each unit at its limit, all units at their limits, sub-second mixes up to the limits, human-sized mixes, carry stressers (x.999999999, 1000 ms, 999999 us), limit-biased spans, and SignedDurations incl. MIN/MAX; for Span and for SignedDuration. '
          'ISO 8601: seeded spans/durations, upper and lower case designators, Display {} and {:#} with FromStr. Oracle: real printer -> real parser; lossless configurations must give the span back unit for unit (with a fractional unit or HH:MM:SS: units above it unit for unit, the rest as one exact total; durations identical); '
@@ -412,7 +412,7 @@ PROPS['C15'] = dict(
     assumptions=COMMON_ASSUME + ['"lossless" = no fractional unit, or fractional seconds/milliseconds/microseconds with precision None or at least 9/6/3 digits; HH:MM:SS keeps hours and minutes as written and seconds+fraction as one total'],
     level_text='Round-trip monitoring of the real duration printers and parsers over the complete friendly configuration lattice and limit-biased values, in both build modes: lossless configurations must reproduce the value exactly, lossy ones within one unit of the last printed digit, and every output must be accepted by the parser.',
     level_note='Trusted base: the comparison rules in harness/src/c15.rs (unit-for-unit above the fractional unit, exact i128 totals below). Values are sampled per configuration; the configuration lattice itself is enumerated.',
-    technique='round-trip (print->parse) monitor over an enumerated configuration lattice x seeded limit-biased values; release + debug-assertion builds',
+    technique='round-trip (print->parse) monitor over an enumerated configuration lattice x seeded limit-biased values; release + debug-assertion builds; Miri on a strided subset (the printers build strings with from_utf8_unchecked)',
     design_ref='DESIGN.md section 4, C15',
 )
 
